@@ -241,6 +241,17 @@ def run(ck, m):
     ck.ob("R6", inst_form, a == b and len(a) >= 2, f"the two forms validate differently: class form {a} vs instance form {b}", stmt="set_render_method: sibling validation")
     ck.ob("R6", cls_form, any("<C>._render_methods" in y for x in a for y in x), "validation must be against the receiver class's _render_methods", stmt="set_render_method: validates against _render_methods")
 
+    # who may write a setting: only the accessors of the setting itself (and set_render_method). Library code that "temporarily" sets one through the public
+    # setter and restores the *effective* value afterwards pins an inherited value on the instance: it stops following its class
+    SETTINGS = {"jpeg_quality", "_jpeg_quality", "read_from_file", "_read_from_file", "_render_method", "forced_support", "_forced_support", "native_anim_max_bytes", "_native_anim_max_bytes"}
+    for rel_, q_, t_, st_ in m.stores():
+        if not rel_.startswith("image/") or not isinstance(t_, ast.Attribute) or t_.attr not in SETTINGS:
+            continue
+        owner_q = getattr(st_, "_q", "") or ""
+        fname = owner_q.split(".")[-1].split("#")[0]
+        ok_w = fname in SETTINGS or fname in ("set_render_method", "__init__", "__new__", "<lambda>") or fname.lstrip("_") in {x.lstrip("_") for x in SETTINGS} or owner_q == "" or "." not in owner_q
+        ck.ob("R2", st_, ok_w, f"{owner_q} writes the setting `{norm(t_)}`: settings are written by their own accessors only - a save / set / restore around some operation stores the effective "
+              "(possibly inherited) value on the instance, which then no longer follows its class or the default", stmt=f"{owner_q}: who may write {t_.attr}")
     # which form of a class/instance method runs is decided by the descriptor: when it tests the *truth value* of the instance (`if instance:`), no image
     # class may define its own truth value (__bool__ / __len__) - a falsy instance (closed, empty) would be served the class form, and
     # `closed_image.set_render_method(x)` would rewrite the class-wide setting
